@@ -501,6 +501,38 @@ def check_seek(ctx, F):
         ctx.bad('R6', 'floor: Seek impls of provided backends', 'backends', 'only %d found (4 expected: Cursor, Vec, SmallVec, Reverse)' % n, key='R6/floor/seek')
 
 
+def check_maybe_exhausted_sources(ctx, F):
+    """ReadWords::maybe_exhausted() may only answer `false` when the next read certainly yields a word.  An iterator's
+    size_hint upper bound says nothing about that (it may be None or loose while the iterator is already empty); only the
+    *lower* bound (> 0) or an exact remaining count justify `false`.  Rule: a maybe_exhausted override whose answer is
+    computed from `size_hint().1` is refuted; from `size_hint().0`, `remaining()`, `is_exhausted()` or the trait default it
+    is accepted."""
+    n = 0
+    for b in rules.impl_bodies(F, 'backends::ReadWords', 'maybe_exhausted'):
+        if '::tests::' in b.defpath:
+            continue
+        ev, paths = rules.evaluate(b)
+        terms = []
+        for r in paths or []:
+            if r.ret is not None:
+                terms.append(r.ret)
+            terms += [t for t, v, _ in r.preds]
+        uses_upper = any(sym.contains(t, lambda x: isinstance(x, tuple) and x and x[0] == 'proj' and x[2] == ('f', '1') and isinstance(x[1], tuple) and x[1][0] == 'call' and str(x[1][1]).endswith('Iterator::size_hint')) for t in terms)
+        uses_hint = any(sym.contains(t, lambda x: isinstance(x, tuple) and x and x[0] == 'call' and str(x[1]).endswith('Iterator::size_hint')) for t in terms)
+        if not uses_hint:
+            continue
+        n += 1
+        ctx.touch(b)
+        key = 'R6/maybe-exhausted-source/' + b.defpath
+        role = 'maybe_exhausted() says `false` only on evidence that a word is left'
+        if uses_upper:
+            ctx.bad('R6', role, b.defpath, 'the answer is computed from the *upper* bound of the iterator\'s size_hint: an iterator with a loose or unknown upper bound (filter, take_while, from_fn) that is already empty makes the backend claim '
+                    '"certainly more data" although the next read returns None, so a decoder that consumed everything reports that it is not exhausted', key=key, loc=rules.loc(b))
+        else:
+            ctx.ok('R6', role, b.defpath, 'derived from the lower bound of size_hint', key=key)
+    ctx.extra['maybe_exhausted_size_hint_overrides'] = n
+
+
 def check_positional_ctors(ctx, F):
     """Constructors that take a position accept exactly what seek accepts (p <= len): a position pos() can report and
     seek() can restore must also be usable to re-open the buffer."""
@@ -715,6 +747,7 @@ def run(ctx):
         check_contracts(ctx, F)
         check_seek(ctx, F)
         check_positional_ctors(ctx, F)
+        check_maybe_exhausted_sources(ctx, F)
         check_into_reversed(ctx, F)
         check_sticky_and_delegation(ctx, F)
     ctx.assume('SafeBuf contract: as_ref()/as_mut() of a SafeBuf never shrink (unsafe trait, implementors are std types only; checked under C20)')
